@@ -145,7 +145,7 @@ Proof.
 Qed.
 
 (** ** a multiplied branch behind its anchor, followed by closings *)
-Lemma gunit_sim2 fo u cs K : gunit_ok fo u = true -> cont K -> closes_ok cs = true -> (cs <> [] -> u_after u = None) ->
+Lemma gunit_sim2 fo u cs K : gunit_ok fo u = true -> contz K -> closes_ok cs = true -> (cs <> [] -> u_after u = None) ->
   forall st x pre pc f ak a0 rc,
   Rel st x -> m_prev x = Some ak -> node_attrs (m_g x) ak = Ok a0 -> parse_graph_base_node fo (u_name u) = Ok a0 ->
   m_pend x = oord (u_bond u) ->
@@ -225,25 +225,41 @@ Proof.
   - apply andb_prop in H as [H _]. apply andb_prop in H as [H _]. destruct (gunit_ok_parts fo u H) as (_ & Hne & _).
     unfold gunit_str. destruct (u_body u) as [|b r]; [contradiction|]. cbn [flat_map]. unfold bnode_str at 1. cbn [app]. constructor.
 Qed.
-Lemma cont_or_end fo t : forallb (g2seg_ok fo) t = true -> cont (g2segs_str t ++ ["}"%char]).
+Lemma cont_or_end fo t br : forallb (g2seg_ok fo) t = true ->
+  contz (g2segs_str t ++ tail_of br) /\ ((t <> [] \/ br = true) -> cont (g2segs_str t ++ tail_of br)).
 Proof.
-  destruct t as [|s t']; [constructor|]. cbn [forallb]. intros H. apply andb_prop in H as [H _]. now apply (cont_g2segs fo).
+  destruct t as [|s t'].
+  - intros _. cbn [g2segs_str flat_map app]. destruct br; cbn [tail_of].
+    + split; [right; constructor|intros _; constructor].
+    + split; [now left|]. intros [C|C]; [now elim C|discriminate].
+  - cbn [forallb]. intros H. apply andb_prop in H as [H _].
+    assert (Hc : cont (g2segs_str (s :: t') ++ tail_of br)).
+    { destruct s as [x|u cs]; cbn [g2segs_str flat_map g2seg_str g2seg_ok] in *.
+      - unfold xlin_str, lin_str. cbn [xbase l_open]. destruct (x_open x); cbn [app]; rewrite <- ?app_assoc; cbn [app]; constructor.
+      - apply andb_prop in H as [H _]. apply andb_prop in H as [H _]. destruct (gunit_ok_parts fo u H) as (_ & Hne & _).
+        unfold gunit_str. destruct (u_body u) as [|b r]; [contradiction|]. cbn [flat_map]. unfold bnode_str at 1. cbn [app]. constructor. }
+    split; [now right|intros _; exact Hc].
 Qed.
 Lemma Forall2_length_eq {A B} (R : A -> B -> Prop) l1 l2 : Forall2 R l1 l2 -> length l1 = length l2.
 Proof. induction 1; cbn; congruence. Qed.
 
-Theorem sim_g2segs fo : forall l md s st x pre pc f,
+(** [br]: the text stands in braces *)
+Theorem sim_g2segs fo (br : bool) : forall l md s st x pre pc f,
   forallb (g2seg_ok fo) l = true -> g2track md s l = true ->
   Rel st x -> TI fo x s -> t_flag s = false -> minv md st ->
   Forall skipch pre -> pc <> "("%char ->
   match m_run fo (g2segs_toks l) x with
-  | Ok x1 => exists st1, main_loop (g2segs_nodes l + Datatypes.S f) fo pc (pre ++ g2segs_str l ++ ["}"%char]) st = Ok st1 /\ Rel st1 x1
-  | Err e => main_loop (g2segs_nodes l + Datatypes.S f) fo pc (pre ++ g2segs_str l ++ ["}"%char]) st = Err e
+  | Ok x1 => exists st1, main_loop (g2segs_nodes l + Datatypes.S f) fo pc (pre ++ g2segs_str l ++ tail_of br) st = Ok st1
+                         /\ s_g st1 = m_g x1 /\ s_cycle st1 = m_rings x1
+  | Err e => main_loop (g2segs_nodes l + Datatypes.S f) fo pc (pre ++ g2segs_str l ++ tail_of br) st = Err e
   end.
 Proof.
   induction l as [|[xi|u cs] t IH]; intros md s st x pre pc f Hok Htr HR HT Hfl Hm Hpre Hpc.
-  - cbn [g2segs_toks flat_map m_run g2segs_str app g2segs_nodes plus main_loop]. exists st. split; [|assumption].
-    rewrite next_node_skip by (now apply skipch_nob). now rewrite next_node_single.
+  - cbn [g2segs_toks flat_map m_run g2segs_str app g2segs_nodes plus main_loop]. exists st.
+    destruct HR as (Rg & _ & _ & Rcy & _). split; [|split; assumption].
+    assert (Hnob : Forall nob (pre ++ tail_of br)).
+    { apply Forall_app; split; [now apply skipch_nob|]. destruct br; repeat constructor. discriminate. }
+    rewrite <- (app_nil_r (pre ++ tail_of br)). rewrite next_node_skip by assumption. now rewrite next_node_nil.
   - (* an item with its closings *)
     cbn [forallb g2seg_ok] in Hok. apply andb_prop in Hok as [Hokx Hokt].
     destruct (xlin_ok_parts fo xi Hokx) as (Hokb & _ & _).
@@ -251,11 +267,11 @@ Proof.
     destruct (pops_track (x_closes xi) s1) as [s2|] eqn:Ept; [|discriminate].
     cbn [g2segs_toks flat_map g2seg_toks]. fold (g2segs_toks t). rewrite (m_xitem fo xi (g2segs_toks t) x Hokb).
     cbn [g2segs_str flat_map g2seg_str g2segs_nodes g2seg_nodes plus]. fold (g2segs_str t).
-    set (k := g2segs_str t ++ ["}"%char]).
-    assert (Hk : cont k) by (now apply (cont_or_end fo)).
+    set (k := g2segs_str t ++ tail_of br).
+    destruct (cont_or_end fo t br Hokt) as [Hkz Hkc]. fold k in Hkz, Hkc.
     destruct (lin_ok_parts fo (xbase xi) Hokb) as (Hn & _). change (l_name (xbase xi)) with (x_name xi) in Hn.
     set (opn := if x_open xi then ["("%char] else []).
-    assert (Etext : pre ++ (xlin_str xi ++ g2segs_str t) ++ ["}"%char]
+    assert (Etext : pre ++ (xlin_str xi ++ g2segs_str t) ++ tail_of br
                   = (pre ++ opn) ++ "["%char :: "#"%char :: x_name xi ++ "]"%char
                                     :: (lin_tail_str (xbase xi) ++ closes_str (x_closes xi) ++ k)).
     { unfold xlin_str, lin_str, opn, k. cbn [xbase l_open l_name]. rewrite <- !app_assoc. cbn [app]. rewrite <- !app_assoc. reflexivity. }
@@ -278,23 +294,38 @@ Proof.
       destruct (x_open xi).
       - destruct (t_flag s); [discriminate|]. destruct (t_cur s); [|discriminate]. injection Eit as <-. cbn [tmk t_names length] in *. lia.
       - injection Eit as <-. cbn [tmk t_names] in Hl. lia. }
-    pose proof (node_step_x_mode fo xi k st x _ s md Hokx (or_intror Hk) (fun _ => Hk) HR HT Hfl Hm Hpc' Hop2 Hlen) as Hstep.
-    destruct (x_effect fo xi x) as [x2|e] eqn:Eeff; cbn [bind]; [|now rewrite Hstep].
-    destruct Hstep as (st2 & Est & HR2 & Hm2). rewrite Est. cbn [bind].
-    assert (Erun : m_run fo (xlin_toks xi) x = Ok x2).
-    { rewrite <- (app_nil_r (xlin_toks xi)), (m_xitem fo xi [] x Hokb), Eeff. reflexivity. }
-    assert (Etr : trun (xlin_toks xi) s = Some s2).
-    { unfold xlin_toks. rewrite trun_app, (trun_lin fo) by assumption. rewrite Eit. now rewrite trun_closes. }
-    pose proof (m_run_TI fo _ x x2 s s2 Erun Etr HT) as HT2.
-    assert (Hfl2 : t_flag s2 = false).
-    { apply (pops_track_flag _ _ _ Ept). unfold item_track in Eit. destruct (if l_open (xbase xi) then _ else _) as [ns|]; [|discriminate].
-      cbn [xbase l_close] in Eit. injection Eit as <-. reflexivity. }
-    assert (Enil : is_nil (m_stack x2) = is_nil (t_names s2)) by (apply (Forall2_is_nil _ _ _ (ti_stack fo x2 s2 HT2))).
-    rewrite Enil in Hm2.
-    rewrite app_assoc. unfold k.
-    apply (IH _ s2 st2 x2 (lin_tail_str (xbase xi) ++ closes_str (x_closes xi)) "]"%char f Hokt Htr HR2 HT2 Hfl2 Hm2).
-    + now apply (xlin_tail_skipch fo).
-    + discriminate.
+    destruct (Bool.bool_dec (is_nil (x_closes xi) && is_nil t && negb br) true) as [Hsp|Hsp].
+    + (* the last item of a text without braces, closing nothing: the look-ahead runs off the text *)
+      apply andb_prop in Hsp as [Hsp Hbr]. apply andb_prop in Hsp as [Hc0 Ht0].
+      destruct (x_closes xi) as [|? ?] eqn:Ec; [|discriminate]. destruct t; [|discriminate]. destruct br; [discriminate|].
+      unfold k. cbn [closes_str g2segs_str flat_map app tail_of g2segs_toks g2segs_nodes plus]. rewrite app_nil_r.
+      assert (Hst : l_close (xbase xi) <> None -> (if l_open (xbase xi) then m_prev x :: m_stack x else m_stack x) <> [])
+        by (intros C; now elim C).
+      pose proof (node_step_last fo (xbase xi) st x _ Hokb HR Hpc' Hop2 Hst) as Hstep. change (l_name (xbase xi)) with (x_name xi) in Hstep.
+      unfold x_effect. rewrite Ec. cbn [closes_toks flat_map].
+      destruct (item_effect fo (xbase xi) x) as [x1|e]; cbn [bind m_run]; [|now rewrite Hstep].
+      destruct Hstep as (st1 & -> & G & C). cbn [bind]. exists st1. split; [|split; assumption].
+      cbn [main_loop]. now rewrite (tail_no_node fo).
+    + assert (Hk0 : x_closes xi = [] -> cont k).
+      { intros Ec. apply Hkc. rewrite Ec in Hsp. cbn [is_nil andb] in Hsp.
+        destruct t as [|? ?]; [|left; discriminate]. destruct br; [now right|]. now elim Hsp. }
+      pose proof (node_step_x_mode fo xi k st x _ s md Hokx Hkz Hk0 HR HT Hfl Hm Hpc' Hop2 Hlen) as Hstep.
+      destruct (x_effect fo xi x) as [x2|e] eqn:Eeff; cbn [bind]; [|now rewrite Hstep].
+      destruct Hstep as (st2 & Est & HR2 & Hm2). rewrite Est. cbn [bind].
+      assert (Erun : m_run fo (xlin_toks xi) x = Ok x2).
+      { rewrite <- (app_nil_r (xlin_toks xi)), (m_xitem fo xi [] x Hokb), Eeff. reflexivity. }
+      assert (Etr : trun (xlin_toks xi) s = Some s2).
+      { unfold xlin_toks. rewrite trun_app, (trun_lin fo) by assumption. rewrite Eit. now rewrite trun_closes. }
+      pose proof (m_run_TI fo _ x x2 s s2 Erun Etr HT) as HT2.
+      assert (Hfl2 : t_flag s2 = false).
+      { apply (pops_track_flag _ _ _ Ept). unfold item_track in Eit. destruct (if l_open (xbase xi) then _ else _) as [ns|]; [|discriminate].
+        cbn [xbase l_close] in Eit. injection Eit as <-. reflexivity. }
+      assert (Enil : is_nil (m_stack x2) = is_nil (t_names s2)) by (apply (Forall2_is_nil _ _ _ (ti_stack fo x2 s2 HT2))).
+      rewrite Enil in Hm2.
+      rewrite app_assoc. unfold k.
+      apply (IH _ s2 st2 x2 (lin_tail_str (xbase xi) ++ closes_str (x_closes xi)) "]"%char f Hokt Htr HR2 HT2 Hfl2 Hm2).
+      * now apply (xlin_tail_skipch fo).
+      * discriminate.
   - (* a multiplied branch with closings *)
     cbn [forallb g2seg_ok] in Hok. apply andb_prop in Hok as [Hoku Hokt].
     apply andb_prop in Hoku as [Hoku Haftb]. apply andb_prop in Hoku as [Hoku Hcs].
@@ -306,8 +337,8 @@ Proof.
     pose proof (ti_cur fo x s HT) as Hc. rewrite Ecur in Hc. destruct Hc as (ak & a0 & Ep & Ea0 & Hat).
     cbn [g2segs_toks flat_map g2seg_toks]. fold (g2segs_toks t). rewrite m_run_app.
     cbn [g2segs_str flat_map g2seg_str g2segs_nodes g2seg_nodes]. fold (g2segs_str t).
-    set (K := g2segs_str t ++ ["}"%char]).
-    assert (HK : cont K) by (now apply (cont_or_end fo)).
+    set (K := g2segs_str t ++ tail_of br).
+    destruct (cont_or_end fo t br Hokt) as [HK _]. fold K in HK.
     pose proof HR as (Rg & Rc & Rp & Rcy & Rba & Rbr & Rpb).
     assert (Hnotin : ~ In (Some ak) (s_branch_anchor st)).
     { rewrite Rba, <- in_rev. now apply (TI_prev_fresh fo x s ak HT Hfl). }
@@ -359,28 +390,70 @@ Proof.
   induction l as [|s t IH]; [cbn; lia|]. cbn [g2segs_nodes g2segs_str flat_map]. rewrite app_length. fold (g2segs_str t).
   pose proof (g2seg_str_length s). lia.
 Qed.
+(** every segment ends in "]" followed by characters that start no node *)
+Lemma g2seg_str_end fo s : g2seg_ok fo s = true ->
+  exists A T, g2seg_str s = A ++ "]"%char :: T /\ Forall skipch T.
+Proof.
+  destruct s as [x|u cs]; cbn [g2seg_ok g2seg_str]; intros H.
+  - exists ((if x_open x then ["("%char] else @nil ascii) ++ "["%char :: "#"%char :: x_name x), (lin_tail_str (xbase x) ++ closes_str (x_closes x)).
+    split; [|now apply (xlin_tail_skipch fo)].
+    unfold xlin_str, lin_str. cbn [xbase l_open l_name]. rewrite <- !app_assoc. cbn [app]. rewrite <- !app_assoc. reflexivity.
+  - apply andb_prop in H as [H _]. apply andb_prop in H as [H _]. destruct (gunit_ok_parts fo u H) as (_ & Hne & Hbo & _ & Hd & _).
+    destruct (exists_last Hne) as (b0 & bl & Eb). rewrite Eb in Hbo.
+    assert (Hsn : sn_ok (bn_mult bl) (bn_bond bl)).
+    { clear -Hbo. revert Hbo. generalize (oord (u_bond u)). induction b0 as [|y r IH]; intros inc H; cbn [app body_ok] in H.
+      - apply andb_prop in H as [H _]. apply andb_prop in H as [_ H]. now apply sn_okb_ok.
+      - apply andb_prop in H as [_ H]. now apply (IH _ H). }
+    exists ("("%char :: flat_map bnode_str b0 ++ "["%char :: "#"%char :: bn_name bl),
+           (stail (bn_mult bl) (bn_bond bl) ++ closing_str u ++ closes_str cs).
+    split.
+    + unfold gunit_str. rewrite Eb, flat_map_app. cbn [flat_map]. unfold bnode_str at 2. rewrite app_nil_r.
+      repeat (rewrite <- app_assoc; cbn [app]). reflexivity.
+    + apply Forall_app; split; [now apply stail_skipch|]. apply Forall_app; split; [now apply closing_skipch|apply closes_inner_skip].
+Qed.
+Lemma last_g2segs_str fo l d : forallb (g2seg_ok fo) l = true -> l <> [] -> last (g2segs_str l) d <> "("%char.
+Proof.
+  intros Hok Hne. destruct (exists_last Hne) as (l' & z & ->).
+  rewrite forallb_app in Hok. apply andb_prop in Hok as [_ Hz]. cbn [forallb] in Hz. apply andb_prop in Hz as [Hz _].
+  unfold g2segs_str. rewrite flat_map_app. cbn [flat_map]. rewrite app_nil_r.
+  destruct (g2seg_str_end fo z Hz) as (A & T & -> & HT).
+  rewrite app_assoc. rewrite last_app_ne by discriminate. rewrite last_cons_default. apply last_skipch; [exact HT|discriminate].
+Qed.
 
-(** ** the theorem *)
+(** ** the theorems: text in braces / without *)
 Definition denote_g2 (fo : float_oracle) (l : list g2seg) : res graph := m_finish (m_run fo (g2segs_toks l) m_init).
+Theorem reader_sim_g2_gen fo (br : bool) l : g2segs_ok fo l = true -> l <> [] ->
+  read_cgsmiles fo ((if br then ["{"%char] else @nil ascii) ++ g2segs_str l ++ tail_of br) = denote_g2 fo l.
+Proof.
+  unfold g2segs_ok. intros H Hne. apply andb_prop in H as [Hok Htr].
+  unfold read_cgsmiles, denote_g2, m_finish.
+  assert (HR : Rel init_state m_init) by (unfold Rel; cbn; repeat split; discriminate).
+  set (text := (if br then ["{"%char] else @nil ascii) ++ g2segs_str l ++ tail_of br).
+  assert (Hpc : last text " "%char <> "("%char).
+  { unfold text. destruct br; cbn [tail_of app].
+    - change ("{"%char :: g2segs_str l ++ ["}"%char]) with (("{"%char :: g2segs_str l) ++ ["}"%char]). rewrite last_last. discriminate.
+    - rewrite app_nil_r. now apply (last_g2segs_str fo). }
+  pose proof (g2segs_str_length l) as Hlen.
+  set (f := (length text - g2segs_nodes l)%nat).
+  assert (Ef : Datatypes.S (length text) = (g2segs_nodes l + Datatypes.S f)%nat).
+  { unfold f, text. rewrite !app_length. lia. }
+  rewrite Ef.
+  pose proof (sim_g2segs fo br l Clean t_init init_state m_init (if br then ["{"%char] else @nil ascii) (last text " "%char) f Hok Htr HR
+                (TI_init fo) eq_refl eq_refl) as Hsim.
+  assert (H2 : Forall skipch (if br then ["{"%char] else @nil ascii)) by (destruct br; repeat constructor; discriminate).
+  specialize (Hsim H2 Hpc). fold text in Hsim.
+  destruct (m_run fo (g2segs_toks l) m_init) as [x1|e].
+  - destruct Hsim as (st1 & -> & G & C). cbn [bind]. rewrite C, G. reflexivity.
+  - rewrite Hsim. reflexivity.
+Qed.
 Theorem reader_sim_g2 fo l : g2segs_ok fo l = true ->
   read_cgsmiles fo ("{"%char :: g2segs_str l ++ ["}"%char]) = denote_g2 fo l.
 Proof.
-  unfold g2segs_ok. intros H. apply andb_prop in H as [Hok Htr].
-  unfold read_cgsmiles, denote_g2, m_finish.
-  assert (Elast : last ("{"%char :: g2segs_str l ++ ["}"%char]) " "%char = "}"%char).
-  { change ("{"%char :: g2segs_str l ++ ["}"%char]) with (("{"%char :: g2segs_str l) ++ ["}"%char]). apply last_last. }
-  rewrite Elast.
-  assert (HR : Rel init_state m_init) by (unfold Rel; cbn; repeat split; discriminate).
-  pose proof (g2segs_str_length l) as Hlen.
-  set (f := (length (g2segs_str l) + 2 - g2segs_nodes l)%nat).
-  assert (Ef : Datatypes.S (length ("{"%char :: g2segs_str l ++ ["}"%char])) = (g2segs_nodes l + Datatypes.S f)%nat).
-  { cbn [length]. rewrite app_length. cbn [length]. unfold f. lia. }
-  rewrite Ef.
-  pose proof (sim_g2segs fo l Clean t_init init_state m_init ["{"%char] "}"%char f Hok Htr HR (TI_init fo) eq_refl eq_refl
-                ltac:(repeat constructor; discriminate) ltac:(discriminate)) as Hsim.
-  cbn [app] in Hsim.
-  destruct (m_run fo (g2segs_toks l) m_init) as [x1|e].
-  - destruct Hsim as (st1 & -> & (Rg & _ & _ & Rcy & _)). cbn [bind]. rewrite Rcy, Rg. reflexivity.
-  - rewrite Hsim. reflexivity.
+  intros H. destruct l as [|s t].
+  - reflexivity.
+  - apply (reader_sim_g2_gen fo true (s :: t) H). discriminate.
 Qed.
-Print Assumptions reader_sim_g2.
+Theorem reader_sim_g2_nobrace fo l : g2segs_ok fo l = true -> l <> [] ->
+  read_cgsmiles fo (g2segs_str l) = denote_g2 fo l.
+Proof. intros H Hne. pose proof (reader_sim_g2_gen fo false l H Hne) as E. cbn [app tail_of] in E. now rewrite app_nil_r in E. Qed.
+Print Assumptions reader_sim_g2_gen.
